@@ -398,6 +398,11 @@ func valueFromAST(valueAST ast.Value, ttype Input, variables map[string]interfac
 			} else {
 				value = field.DefaultValue
 			}
+			if isNullish(value) {
+				// a field whose value is a variable that was not provided is
+				// treated like an omitted field: its default applies
+				value = field.DefaultValue
+			}
 			if !isNullish(value) {
 				obj[name] = value
 			}
